@@ -33,7 +33,8 @@ MANIFEST = {
             'tasks and named-environment tasks are part of the streams; '
             'priority is decided on scripted two-task scenarios.'
             "  Second session: a quarter of the histories carry raptor tasks (named master, any master '*', tasks returning with raptor_seen) with the master's queue registering/unregistering at seeded points: partition rule incl. backlog/queue, no local placement of a raptor task, backlog flushed once the queue is registered."
-            '  Third session: a threaded wait-pool workload - a running task ends (the loop re-tests the wait pool) while cancel requests for waiting tasks arrive on the control thread, LINE perturbation of _schedule_waitpool/control_cb: every waiting task ends up in exactly one place (placed once, canceled once, or still waiting).  The raptor registration race additionally registers the master exactly when the loop is about to enter its raptor section (gate on the raptor lock).',
+            '  Third session: a threaded wait-pool workload - a running task ends (the loop re-tests the wait pool) while cancel requests for waiting tasks arrive on the control thread, LINE perturbation of _schedule_waitpool/control_cb: every waiting task ends up in exactly one place (placed once, canceled once, or still waiting).  The raptor registration race additionally registers the master exactly when the loop is about to enter its raptor section (gate on the raptor lock).'
+            '  A directed scenario: everybody who waited is canceled, the running task ends (a release into an empty wait pool), then a task arrives which waits for its named environment - it starts once the environment is registered.',
     'note': 'unbounded "eventually" restated as K=4 iterations; fit oracle '
             'only for tag-free, whole-GPU requests in scattered mode (other '
             'requests take part in the partition and at-most-once oracles '
